@@ -26,7 +26,9 @@ type c10Peer struct {
 	// Park: idle (dials refused), dial-stalled, dial-held, active, opensent-out,
 	// openconfirm-out, established-out, opensent-in, openconfirm-in,
 	// established-in, collision (out in OpenSent + in in OpenConfirm),
-	// collision2 (both in OpenSent), held-down, writers-in, writers-out
+	// collision2 (both in OpenSent), held-down, writers-in, writers-out,
+	// idle-due / active-due: the stop is called at the instant the idle-hold /
+	// connect-retry timer fires and the next dial (which succeeds) is launched
 	Park     string `json:"park"`
 	Passive  bool   `json:"passive,omitempty"`
 	SpinCb   string `json:"spin_cb,omitempty"` // a plugin callback that busy-waits a little
@@ -73,7 +75,7 @@ func c10Plan(park string) memnet.DialPlan {
 		return memnet.DialPlan{Kind: memnet.Stall}
 	case "dial-held":
 		return memnet.DialPlan{Kind: memnet.Hold}
-	case "active", "opensent-out", "openconfirm-out", "established-out", "collision", "collision2", "writers-out":
+	case "active", "active-due", "opensent-out", "openconfirm-out", "established-out", "collision", "collision2", "writers-out":
 		return memnet.DialPlan{Kind: memnet.Accept}
 	}
 	return memnet.DialPlan{Kind: memnet.Refuse}
@@ -147,6 +149,9 @@ func c10Prop(t *testing.T, r *hx.Run, sub string) func(c c10Case) hx.Verdict {
 				if p.Park == "dial-stalled" || p.Park == "dial-held" {
 					w.Net.SetPlans(specs[i].RemoteAddr(), c10Plan(p.Park))
 				}
+				if strings.HasSuffix(p.Park, "-due") {
+					w.Net.SetPlans(specs[i].RemoteAddr(), c10Plan(p.Park), memnet.DialPlan{Kind: memnet.Accept, SpinUs: p.SpinUs})
+				}
 				if err := w.AddPeer(specs[i]); err != nil {
 					fail("setup", "%v", err)
 					return
@@ -181,7 +186,7 @@ func c10Prop(t *testing.T, r *hx.Run, sub string) func(c c10Case) hx.Verdict {
 					}
 				}
 				switch p.Park {
-				case "active":
+				case "active", "active-due":
 					if out != nil {
 						out.RemoteClose() // TCP failure in OpenSent -> Active
 						w.Settle()
@@ -273,6 +278,14 @@ func c10Prop(t *testing.T, r *hx.Run, sub string) func(c c10Case) hx.Verdict {
 			touched := map[int]bool{}
 			progressed := map[int]bool{}
 			racingAPI := false
+			for _, p := range c.Peers {
+				if strings.HasSuffix(p.Park, "-due") {
+					// return at the virtual instant the next dial is launched: the FSM is
+					// then between dialPeer() and the peer manager's acknowledgement
+					w.Net.WaitDials(len(w.Net.Dials())+1, 20*time.Second)
+					break
+				}
+			}
 			burstStart := w.Net.NextSeq()
 			fireConc := func() {
 				for _, x := range c.Conc {
@@ -596,7 +609,7 @@ func c10Prop(t *testing.T, r *hx.Run, sub string) func(c c10Case) hx.Verdict {
 	}
 }
 
-var c10Parks = []string{"idle", "dial-stalled", "dial-held", "active", "opensent-out", "openconfirm-out", "established-out",
+var c10Parks = []string{"idle-due", "active-due", "idle", "dial-stalled", "dial-held", "active", "opensent-out", "openconfirm-out", "established-out",
 	"opensent-in", "openconfirm-in", "established-in", "collision", "collision2", "held-down", "writers-in", "writers-out"}
 
 func genC10(rt *rapid.T) c10Case {
@@ -615,8 +628,14 @@ func genC10(rt *rapid.T) c10Case {
 			Peer: rapid.IntRange(0, n-1).Draw(rt, "cpeer"), Dir: pick(rt, "cdir", "in", "out")})
 	}
 	if rapid.IntRange(0, 2).Draw(rt, "delays") == 0 {
+		hi := int64(3)
+		for _, p := range c.Peers {
+			if strings.HasSuffix(p.Park, "-due") {
+				hi = 60 // long enough for the stop to overtake the FSM at a schedule point
+			}
+		}
 		for i, k := 0, rapid.IntRange(1, 8).Draw(rt, "ndelays"); i < k; i++ {
-			c.Delays = append(c.Delays, rapid.Int64Range(0, 3).Draw(rt, "delay"))
+			c.Delays = append(c.Delays, pick(rt, "delay", 0, 0, 1, 2, 3, hi))
 		}
 	}
 	c.Late = rapid.Bool().Draw(rt, "late")
@@ -654,6 +673,24 @@ func TestC10(t *testing.T) {
 			}
 		}
 	}, c10Prop(t, r, "every_point_x_api"))
+
+	// the stop arrives at the instant a timer launches the next (successful) dial,
+	// with the FSM / the peer manager held at their schedule points for a while
+	hx.Enum(r, t, "stop_when_dial_is_due", 0, func(yield func(c10Case) bool) {
+		for _, park := range []string{"idle-due", "active-due"} {
+			for _, api := range []string{"close", "del", "del-add", "liserr"} {
+				for _, delays := range [][]int64{nil, {50}, {0, 50}, {50, 0}, {0, 0, 50}, {12, 0, 0}, {100}, {3}} {
+					for _, spin := range []int64{0, 100} {
+						for _, late := range []bool{false, true} {
+							if !yield(c10Case{Peers: []c10Peer{{Park: park, SpinUs: spin}}, API: api, Delays: delays, Late: late}) {
+								return
+							}
+						}
+					}
+				}
+			}
+		}
+	}, c10Prop(t, r, "stop_when_dial_is_due"))
 
 	hx.Rapid(r, t, "stop_at_every_point", r.N(2500, 25000), genC10, c10Prop(t, r, "stop_at_every_point"))
 
